@@ -63,6 +63,9 @@ func layoutLabels(l *layout.Layout, r *layout.Resolution) (labels []string, nont
 				set["invalid-file-present"] = true
 				continue
 			}
+			if f.Link != "" {
+				set["valid-spec-behind-symlink"] = true
+			}
 			if strings.HasSuffix(name, ".json") {
 				json = true
 			} else {
@@ -142,7 +145,7 @@ func propC01(rec *stats.Rec, sc *scratch, auto bool) func(t *rapid.T) {
 	return func(t *rapid.T) {
 		root := sc.dir()
 		defer os.RemoveAll(root)
-		l := layout.Generate(t, root, layout.Options{})
+		l := layout.Generate(t, root, layout.Options{Links: true})
 		if err := l.Materialise(); err != nil {
 			t.Fatalf("VERIF-HARNESS materialise: %v", err)
 		}
